@@ -56,6 +56,8 @@ def hkey(v):
         return ("e", id(v.cls), v.name)
     if isinstance(v, TupleVal):
         return ("t",) + tuple(hkey(x) for x in v.items)
+    if isinstance(v, ClassVal) and class_hashed_by_name(v):
+        return ("class-by-name", v.name)
     if isinstance(v, (Obj, ClassVal, FuncVal, Builtin, ModuleVal)):
         return ("o", id(v))
     if isinstance(v, Sym):
@@ -75,6 +77,23 @@ def hkey(v):
         if isinstance(forced, str):
             return ("c", forced)
     raise Unsupported(f"unhashable / unsupported dict key {v!r}")
+
+
+def class_hashed_by_name(c):
+    """a class whose metaclass (its own or an inherited one) defines `__hash__` over `cls.__name__` (and `__eq__` over the hashes):
+    as a dict / set key such a class is its name. A metaclass `__hash__` of another form is not modelled."""
+    for k in c.mro():
+        m = getattr(k, "metaclass", None)
+        if isinstance(m, ClassVal):
+            f, _ = m.lookup("__hash__")
+            node = getattr(f, "node", None)
+            if node is None:
+                continue
+            body = [st for st in node.body if not (isinstance(st, ast.Expr) and isinstance(st.value, ast.Constant))]
+            if len(body) == 1 and isinstance(body[0], ast.Return) and "__name__" in ast.unparse(body[0]):
+                return True
+            raise Unsupported(f"metaclass {m.name}.__hash__ of a form that is not modelled")
+    return False
 
 
 _CURRENT = {}
@@ -859,6 +878,43 @@ class Interp:
         ctx.bounded.append(f"loop at {ctx.where} has no invariant: unrolled for sequences of up to {self.BOUND} elements only")
         return [seq.elem(j) for j in range(k)]
 
+    def map_loop(self, ctx, env, st):
+        """`acc = []` ... `for t in it: acc.append(e)` over a sequence of symbolic length, no invariant given: by the definition of
+        list displays this is `acc = [e for t in it]` when `acc` is an empty list on entry, `e` does not mention `acc`, and `it` is
+        a name or a `range` of names / constants / attribute reads (evaluated a second time here). The loop target is left
+        havoc'd after the loop. Returns False when the loop does not have that shape."""
+        if st.orelse or len(st.body) != 1 or not isinstance(st.body[0], ast.Expr):
+            return False
+        c = st.body[0].value
+        if not (isinstance(c, ast.Call) and isinstance(c.func, ast.Attribute) and c.func.attr == "append" and isinstance(c.func.value, ast.Name)
+                and len(c.args) == 1 and not c.keywords and not isinstance(c.args[0], ast.Starred)):
+            return False
+        acc = c.func.value.id
+        if any(isinstance(x, ast.Name) and x.id == acc for x in ast.walk(c.args[0])):
+            return False
+        if any(isinstance(x, (ast.Yield, ast.YieldFrom, ast.Await, ast.NamedExpr)) for x in ast.walk(c.args[0])):
+            return False
+        pure = lambda e: isinstance(e, (ast.Name, ast.Constant)) or (isinstance(e, ast.Attribute) and pure(e.value))
+        iok = pure(st.iter) or (isinstance(st.iter, ast.Call) and isinstance(st.iter.func, ast.Name) and st.iter.func.id == "range"
+                                and not st.iter.keywords and all(pure(a) for a in st.iter.args))
+        if not iok:
+            return False
+        try:
+            cur = self.lookup(env, acc)
+        except Exception:
+            return False
+        if not (isinstance(cur, ListVal) and len(cur.items) == 0) or acc not in env.vars:
+            return False
+        comp = ast.ListComp(elt=c.args[0], generators=[ast.comprehension(target=st.target, iter=st.iter, ifs=[], is_async=0)])
+        ast.copy_location(comp, st)
+        ast.fix_missing_locations(comp)
+        val = self.eval(ctx, env, comp)
+        env.vars[acc] = val
+        for x in ast.walk(st.target):
+            if isinstance(x, ast.Name):
+                env.vars[x.id] = Opaque(None, "havoc:loop-target-after-a-map-loop", {})
+        return True
+
     def s_For(self, ctx, env, st):
         spec, o = self.loop_spec_for(env, st)
         it = self.eval(ctx, env, st.iter)
@@ -868,6 +924,8 @@ class Interp:
             except (Unsupported, PyvcError) as e:
                 if "symbolic" not in str(e):
                     raise
+                if self.map_loop(ctx, env, st):
+                    return
                 items = self.bounded_items(ctx, it)
             for v in items:
                 self.assign(ctx, env, st.target, v)
